@@ -3,12 +3,10 @@ C07 — a request passes iff security, every effective parameter and the body pa
 Property theorems only (opened model and spec: KinModel/RequestFlow.lean; interpreter lemmas: KinModel/Lemmas/C07.lean;
 composition with the parameter and body models of C05 / C06: KinModel/Props/C07Compose.lean).
 
-Full-strength goal (kept visible):   ∀ o op env, (validateRequest o op env).isOk = true ↔ Accept o op env.
-It is NOT a theorem of the code: with no authentication callback configured (`env.auth = none`) a non-empty security
-list that offers an EMPTY requirement is rejected (`ErrAuthenticationServiceMissing` is answered before the — empty —
-loop over the scheme names), although by the property text an empty requirement needs no authentication: exclusion
-class `exclNilAuthEmptyReq` (finding F-C07-1), witness `nilAuth_emptyRequirement_witness`. Outside it the statement is
-proved (`accept_iff_partial`), and at full strength whenever a callback is configured (`accept_iff`).
+The main theorem holds at full strength (`accept_iff`). Finding F-C07-1 (no authentication callback configured, an empty
+requirement offered: rejected) is repaired in the repository (`if len(securityRequirement) == 0 { return nil }` at the head
+of validateSecurityRequirement, read by the translator as the row `.emptyReqOk`); its exclusion class is deleted and its
+witness is the regression theorem `nilAuth_emptyRequirement_regression`.
 -/
 import KinModel.RequestFlow
 import KinModel.Lemmas.C07
@@ -177,8 +175,8 @@ theorem runReqs_fst (d : String → Bool) (a : String → List String → Bool) 
       simp only [hb, List.any_cons, this, Bool.false_or]
       exact ih (k + 1)
 
-/-- the code's security verdict is the specification's, outside NilAuthEmptyRequirement -/
-theorem runSecurity_eq_secSpecB_partial (env : Env) (op : Op) (hx : exclNilAuthEmptyReq env op = false) :
+/-- the code's security verdict is the specification's — with or without a callback -/
+theorem runSecurity_eq_secSpecB (env : Env) (op : Op) :
     (runSecurity env op).1 = secSpecB env op := by
   unfold runSecurity secSpecB
   cases h : securityList op with
@@ -190,48 +188,36 @@ theorem runSecurity_eq_secSpecB_partial (env : Env) (op : Op) (hx : exclNilAuthE
         funext u; simp [accepted, ha]
       simp only [runReqs_fst, List.isEmpty_cons, Bool.false_or, hacc]
     | none =>
-      have hne : (r :: rs).any (·.isEmpty) = false := by
-        simpa [exclNilAuthEmptyReq, ha, h] using hx
       have hacc : ∀ u, accepted env u = false := by intro u; simp [accepted, ha]
+      have hall : ∀ q : Requirement, q.all (accepted env) = q.isEmpty := by
+        intro q; cases q <;> simp [hacc]
       simp only [List.isEmpty_cons, Bool.false_or]
-      symm
-      rw [List.any_eq_false]
-      intro q hq
-      have hq' : q.isEmpty = false := by
-        rw [List.any_eq_false] at hne
-        simpa using hne q hq
-      cases q with
-      | nil => simp at hq'
-      | cons u us => simp [hacc]
+      congr 1
+      funext q
+      exact (hall q).symm
 
 theorem secSpecB_iff (env : Env) (op : Op) : secSpecB env op = true ↔ SecSpec env op := by
   simp [secSpecB, SecSpec, List.isEmpty_iff]
 
 /-- Security succeeds exactly when the applicable list is empty or some requirement has all its scheme uses
 accepted — declared and accepted by the callback with the scopes this requirement lists (an empty requirement needs
-nothing) — outside NilAuthEmptyRequirement. -/
-theorem security_iff_partial (env : Env) (op : Op) (hx : exclNilAuthEmptyReq env op = false) :
+nothing, not even a callback). -/
+theorem security_iff (env : Env) (op : Op) :
     (runSecurity env op).1 = true ↔ SecSpec env op := by
-  rw [runSecurity_eq_secSpecB_partial env op hx]; exact secSpecB_iff env op
+  rw [runSecurity_eq_secSpecB env op]; exact secSpecB_iff env op
 
-/-- with a callback configured the exclusion class is empty -/
-theorem excl_false_of_callback (env : Env) (op : Op) (h : env.auth.isSome = true) : exclNilAuthEmptyReq env op = false := by
-  unfold exclNilAuthEmptyReq
-  cases ha : env.auth with
-  | none => simp [ha] at h
-  | some a => simp
-
-/-- **witness of F-C07-1** (kernel-checked): no callback, `security: [{}]` at document level — nothing needs to be
-authenticated (the specification accepts), the code rejects with a security error and makes no call. -/
-theorem nilAuth_emptyRequirement_witness :
+/-- **regression of F-C07-1** (kernel-checked): no callback, `security: [{}]` at document level — nothing needs to be
+authenticated, the request passes and no call is made; a non-empty requirement in front of the empty one is skipped. -/
+theorem nilAuth_emptyRequirement_regression :
     let op : Op := { opParams := none, pathParams := [], opSecurity := none, docSecurity := [[]], hasBody := false, bodyOK := true }
     let env : Env := { declared := fun _ => true, auth := none }
-    exclNilAuthEmptyReq env op = true ∧ validateRequest {} op env = .single .security ∧ acceptB {} op env = true ∧
-    authLog {} op env = [] := by decide
+    validateRequest {} op env = .ok ∧ acceptB {} op env = true ∧ authLog {} op env = [] ∧
+    validateRequest {} { op with docSecurity := [[⟨"a", []⟩], []] } env = .ok ∧
+    validateRequest {} { op with docSecurity := [[⟨"a", []⟩]] } env = .single .security := by decide
 
-/-- without a callback no non-empty list passes, whatever it offers; no call is made -/
-theorem nil_auth_rejects (env : Env) (op : Op) (ha : env.auth = none) (hne : securityList op ≠ []) :
-    runSecurity env op = (false, []) := by
+/-- without a callback a non-empty list passes iff it offers an empty requirement; no call is made -/
+theorem nil_auth_passes_iff_empty_requirement (env : Env) (op : Op) (ha : env.auth = none) (hne : securityList op ≠ []) :
+    runSecurity env op = ((securityList op).any (·.isEmpty), []) := by
   unfold runSecurity
   cases h : securityList op with
   | nil => exact absurd h hne
@@ -263,8 +249,8 @@ theorem mem_visited_iff_effective (o : Opts) (op : Op) (p : Param) :
 when security passes, every parameter in effect validates, and the body (when declared and not excluded) validates:
 for every operation (parameter lists of any shape at both levels, nil or empty, with duplicates, security lists of any
 shape at both levels with scopes), every option combination, every set of declared schemes and every callback verdict
-per (scheme, scopes), outside NilAuthEmptyRequirement. -/
-theorem accept_iff_partial (o : Opts) (op : Op) (env : Env) (hx : exclNilAuthEmptyReq env op = false) :
+per (scheme, scopes), with or without a callback. -/
+theorem accept_iff (o : Opts) (op : Op) (env : Env) :
     (validateRequest o op env).isOk = true ↔ Accept o op env := by
   rw [isOk_iff_failing_nil]
   unfold failing Accept bodyChecked
@@ -272,7 +258,7 @@ theorem accept_iff_partial (o : Opts) (op : Op) (env : Env) (hx : exclNilAuthEmp
   constructor
   · rintro ⟨⟨hs, hp⟩, hb⟩
     refine ⟨?_, ?_, ?_⟩
-    · apply (security_iff_partial env op hx).mp
+    · apply (security_iff env op).mp
       cases hc : (runSecurity env op).1 with
       | true => rfl
       | false => simp [hc] at hs
@@ -285,17 +271,12 @@ theorem accept_iff_partial (o : Opts) (op : Op) (env : Env) (hx : exclNilAuthEmp
       | false => simp [h1, h2, hc] at hb
   · rintro ⟨hs, hp, hb⟩
     refine ⟨⟨?_, ?_⟩, ?_⟩
-    · have := (security_iff_partial env op hx).mpr hs; simp [this]
+    · have := (security_iff env op).mpr hs; simp [this]
     · intro p hpm
       have := hp p ((mem_visited_iff_effective o op p).mp hpm)
       simp [this]
     · cases h1 : op.hasBody <;> cases h2 : o.excludeBody <;> simp
       exact hb h1 h2
-
-/-- the main theorem at full strength whenever an authentication callback is configured -/
-theorem accept_iff (o : Opts) (op : Op) (env : Env) (h : env.auth.isSome = true) :
-    (validateRequest o op env).isOk = true ↔ Accept o op env :=
-  accept_iff_partial o op env (excl_false_of_callback env op h)
 
 theorem acceptB_iff (o : Opts) (op : Op) (env : Env) :
     acceptB o op env = true ↔ Accept o op env := by
@@ -337,22 +318,22 @@ theorem failfast_reports_first (o : Opts) (op : Op) (env : Env) (hm : o.multiErr
 
 /-- The failing parts reported are, as a set, exactly the parts the property names: security when no
 requirement is met, each parameter in effect that does not validate, the body when checked and invalid. -/
-theorem failing_mem_iff_spec_partial (o : Opts) (op : Op) (env : Env) (hx : exclNilAuthEmptyReq env op = false) (x : Part) :
+theorem failing_mem_iff_spec (o : Opts) (op : Op) (env : Env) (x : Part) :
     x ∈ failing o op env ↔ x ∈ failingSpec o op env := by
   unfold failing failingSpec bodyChecked
-  rw [runSecurity_eq_secSpecB_partial env op hx]
+  rw [runSecurity_eq_secSpecB env op]
   simp only [List.mem_append, List.mem_map, List.mem_filter, mem_visited_iff_effective]
 
 /-- what is returned holds exactly the parts the property names (multi-error) or one of them (fail-first) -/
-theorem returned_parts_are_spec_partial (o : Opts) (op : Op) (env : Env) (hx : exclNilAuthEmptyReq env op = false) :
+theorem returned_parts_are_spec (o : Opts) (op : Op) (env : Env) :
     (o.multiError = true → ∀ x, x ∈ (validateRequest o op env).parts ↔ x ∈ failingSpec o op env) ∧
     (o.multiError = false → ∀ x ∈ (validateRequest o op env).parts, x ∈ failingSpec o op env) := by
   constructor
   · intro hm x
-    rw [multi_reports_exactly_failing o op env hm, ← failing_mem_iff_spec_partial o op env hx]
+    rw [multi_reports_exactly_failing o op env hm, ← failing_mem_iff_spec o op env]
     cases failing o op env <;> simp [Res.parts]
   · intro hm x
-    rw [failfast_reports_first o op env hm, ← failing_mem_iff_spec_partial o op env hx]
+    rw [failfast_reports_first o op env hm, ← failing_mem_iff_spec o op env]
     cases failing o op env with
     | nil => simp [Res.parts]
     | cons p ps => intro h; simp [Res.parts] at h; simp [h]
@@ -575,7 +556,7 @@ theorem runSecurity_lift (d a : String → Bool) (op : Request.Op) :
   | cons r rs => exact runReqs_lift d a (r :: rs) 0
 
 /-- **the first model is this model** restricted to requirements without scopes, a configured callback whose verdict
-depends on the scheme name only, and a non-nil operation parameter list: same result (a bare error and a one-element
+depends on the scheme name only (for a validator without callback see `legacy_model_covers_nil_callback`), and a non-nil operation parameter list: same result (a bare error and a one-element
 MultiError are not told apart by the first model), same sequence of schemes offered to the callback. What property
 C14 proves about the middleware in terms of `Request.validateRequest` is therefore about the meaning of the programs
 read from the source. -/
@@ -598,6 +579,28 @@ theorem legacy_model_is_instance (o : Opts) (op : Request.Op) (d a : String → 
   · unfold authLogD Request.authLog
     exact hs2.symm
 
+/-- since the repair of F-C07-1, a missing callback decides like a callback that rejects everything: same result, same
+failing parts (only the call log differs: no call at all) -/
+theorem nil_callback_is_rejecting_callback (o : Opts) (op : Op) (d : String → Bool) :
+    validateRequest o op ⟨d, none⟩ = validateRequest o op ⟨d, some (fun _ _ => false)⟩ := by
+  rw [(validateRequest_eq_direct o op ⟨d, none⟩).1, (validateRequest_eq_direct o op ⟨d, some (fun _ _ => false)⟩).1]
+  unfold validateRequestD failing
+  have h : (runSecurity ⟨d, none⟩ op).1 = (runSecurity ⟨d, some (fun _ _ => false)⟩ op).1 := by
+    rw [runSecurity_eq_secSpecB, runSecurity_eq_secSpecB]
+    unfold secSpecB
+    have ha : accepted ⟨d, none⟩ = accepted ⟨d, some (fun _ _ => false)⟩ := by
+      funext u; simp [accepted]
+    rw [ha]
+  rw [h]
+
+/-- … hence the first model also describes a validator WITHOUT authentication callback (`Options.AuthenticationFunc ==
+nil`, or nil `Options`): take the callback that accepts nothing. (Before the repair this was false: `security: [{}]`
+was rejected without a callback and accepted with any.) Property C14 may model a nil `AuthenticationFunc` this way. -/
+theorem legacy_model_covers_nil_callback (o : Opts) (op : Request.Op) (d : String → Bool) :
+    Request.validateRequest o op d (fun _ => false) = toLegacy (validateRequest o (liftOp op) ⟨d, none⟩) := by
+  rw [nil_callback_is_rejecting_callback]
+  exact (legacy_model_is_instance o op d (fun _ => false)).1
+
 /-! ## one level below the bits -/
 
 theorem paramFacts_ok_iff (f : ParamFacts) : f.ok = true ↔ f.Validates := by
@@ -618,7 +621,7 @@ def exOp : Op :=
 def exEnv : Env := { declared := fun _ => true, auth := some (fun s _ => s == "k") }
 
 example : (validateRequest {} exOp exEnv).isOk = true := by decide
-example : Accept {} exOp exEnv := (accept_iff _ _ _ rfl).mp (by decide)
+example : Accept {} exOp exEnv := (accept_iff _ _ _).mp (by decide)
 example : (validateRequest {} { exOp with docSecurity := [[⟨"k", []⟩, ⟨"j", []⟩]] } exEnv).isOk = false := by decide
 example : authLog {} { exOp with docSecurity := [[⟨"k", []⟩, ⟨"j", []⟩]] } exEnv = [⟨0, "j", []⟩] := by decide
 
